@@ -44,7 +44,7 @@ def _nested_same_generic(h, inside=False):
     return any(_nested_same_generic(a, inside) for a in h.get('a', []) or [] if isinstance(a, dict))
 
 
-def generate(rng, run, tier):
+def _generate(rng, run, tier):
     r = rng.random()
     conf = entry.gen_conf(rng, allow_tower=False)
     allow_nested = rng.random() < 0.1
@@ -100,6 +100,13 @@ def generate(rng, run, tier):
     return {'mode': 'any', 'h': h, 'x': o, 'conf': conf, 'draws': H.effective_draws(rng, H.seq_lengths(h, o), cap=24)}
 
 
+def generate(rng, run, tier):
+    case = _generate(rng, run, tier)
+    # the calling convention of the decorated callable (drawn last: the rest of the case is as it was without it)
+    case['sig'] = entry.gen_sig(rng)
+    return case
+
+
 def execute(case):
     import json
     from sim import boot
@@ -123,7 +130,7 @@ def execute(case):
     else:
         probes['arbitrary_cases'] = 1
     try:
-        prep = entry.Prepared(hint, case['conf'])
+        prep = entry.Prepared(hint, case['conf'], sig=case.get('sig', 'pos'))
     except Exception as e:      # noqa
         return c03._out(case, probes, ('unexpected_exception', 'preparing checkers for %r raised %s: %s' % (
             hint, type(e).__name__, str(e)[:300]), 'prepare:' + type(e).__name__))
@@ -193,4 +200,4 @@ SIGNATURES = {'generic_nested_in_itself': _sig_generic_recursion}
 
 
 def describe(case):
-    return {'mode': case['mode'], 'hint': case['h'], 'object': case['x'], 'conf': case['conf'], 'where': case.get('where'), 'i': case.get('i')}
+    return {'sig': case.get('sig', 'pos'), 'mode': case['mode'], 'hint': case['h'], 'object': case['x'], 'conf': case['conf'], 'where': case.get('where'), 'i': case.get('i')}
